@@ -2,6 +2,26 @@
 property, extra trusted-base entries, what is partial."""
 
 PROPS = {
+    "C01": {
+        "suites": ["crash", "segment"],
+        "partial": "theorems are at the byte level (L1): acknowledged batches survive a clean restart and any torn later write of the tail file, for every chunk subset; the WAL-level statement over all workloads, crash points (incl. rotation, truncation, recovery itself, nested) and persistence choices is decided by the crash suite, which evaluates the ghost-state monitor on the real code for every crash point of generated workloads (tens of thousands of images per run) — an exploration, not a proof; the L2 crash-refinement theorem of DESIGN §6 is not mechanised",
+        "assumptions": ["disk model of DESIGN §5 (8-byte chunk granularity, fsync semantics, atomic meta commits)", "simfs mirrors the production fs package (probed at start-up; C07 checks the real layer)"],
+    },
+    "C02": {
+        "suites": ["crash", "segment"],
+        "partial": "batch atomicity under every torn write and recovery of untorn files are L1 theorems (with the CRC-collision disjuncts explicit); chains of crashes reduce to the single-crash case because recovery provably leaves a clean region behind the tail; the WAL-level statement is decided by the crash suite's monitors on the real code (exploration)",
+        "assumptions": ["CRC-32C collisions excluded as stated in the theorem", "disk model of DESIGN §5"],
+    },
+    "C03": {
+        "suites": ["crash", "segment"],
+        "partial": "totality of tail recovery on torn images and usability after reopen (C05 refinement) are theorems; that Open succeeds on every directory state a crash can leave and that the recovered WAL accepts appends/truncations/stable writes durably is decided by the crash suite (every crash point incl. inside Open, continuation workload, chains) on the real code (exploration)",
+        "assumptions": ["disk model of DESIGN §5"],
+    },
+    "C04": {
+        "suites": ["crash", "wal"],
+        "partial": "what a completed truncation means (old/new FirstIndex/LastIndex, re-appended entries win, identically after reopen) is proved through the C05 refinement; atomicity and durability of a truncation interrupted at any crash point are decided by the crash suite's ghost-state monitor on the real code (exploration); BoltDB's atomic commit is assumed",
+        "assumptions": ["atomic durable meta commit (BoltDB)", "disk model of DESIGN §5"],
+    },
     "C05": {
         "suites": ["wal"],
         "partial": "the refinement theorem is about the L2 model (logical segment files; sealing decided by byte sizes, which the proof does not depend on) and programs whose indexes stay below 2^64-1; rotation is performed before the next call (the harness inserts a barrier); model = code is sampled exhaustively over a reduced alphabet to a length bound and randomly beyond, on simfs and on the real filesystem + BoltDB",
@@ -11,6 +31,11 @@ PROPS = {
         "suites": ["segment", "golden", "wal"],
         "partial": "Spec.Format is written from README.md alone (one ambiguity resolved by the property text: the first commit's CRC covers the file header); the CRC-32C primitive is shared between model and spec (external standard, compared with hash/crc32 on every run); the README calls the meta bucket 'wal-state' while the code uses 'wal-meta' (documentation discrepancy, recorded); the BoltDB record itself is compared through the meta op of the wal suite, not proved",
         "assumptions": ["hash/crc32 Castagnoli = bitwise CRC-32C of Model/Bytes.lean (differential)"],
+    },
+    "C10": {
+        "suites": ["fault", "segment"],
+        "partial": "rollback of the writer after failed writes/fsyncs is a theorem about the byte-level model and is compared with the real writer under injected faults (segment suite); the WAL-level statement — every VFS/MetaStore call of a workload as the failing one, transient or persistent, followed by acknowledged appends and a reopen — is decided by the fault suite's ghost-state monitors on the real code (exhaustive over the calls of each generated workload; pairs of failures only through persistent faults)",
+        "assumptions": ["reads do not fail", "a failing write lands a prefix of its bytes"],
     },
     "C11": {
         "suites": ["codec", "segment"],
